@@ -150,6 +150,16 @@ class DataView:
         return self.data.load_index(fr, Aff.of(self.lo) + Aff.of(k), node)
 
 
+class DecodedNumber(tuple):
+    """decode_number(view): an integer about which nothing is known; tests on it fork."""
+
+    def compare(self, fr, op, other, node):
+        return B.cur().choose("decoded number %s %r @%d" % (type(op).__name__, other if isinstance(other, int) else "?", getattr(node, "lineno", 0)))
+
+    def truth(self, fr, node):
+        return B.cur().choose("decoded number is non-zero @%d" % getattr(node, "lineno", 0))
+
+
 class StrResult:
     def __init__(self, view, codec):
         self.view, self.codec = view, codec
@@ -317,7 +327,7 @@ class ReaderWorld:
         mod = f.mod.name
         if mod == "eolib.data.number_encoding_utils" and f.node.name == "decode_number":
             self.calls.append(("decode_number", args[0]))
-            return ("decode_number", args[0])
+            return DecodedNumber(("decode_number", args[0]))
         if mod == "eolib.data.string_encoding_utils" and f.node.name in ("decode_string", "encode_string"):
             if isinstance(args[0], DataView):
                 args[0].ops.append((f.node.name,))
